@@ -527,7 +527,7 @@ func init() {
 		ID:        "C02",
 		Technique: "bounded-exhaustive history exploration (BFS over edit histories with state merging on the buffer text) of the real didOpen/didChange/didSave/didClose handlers and of FileMapCache.ApplyContentChanges against a reference UTF-16 text buffer",
 		Rule: "documents: all strings over {a, é, 中, 😀, LF, CRLF, CR} up to the length bound; edits: every (start<=end) pair of valid UTF-16 positions x 6 insert texts, plus ends one unit past a line end (LSP clamp); " +
-			"histories open/inc/full/save/close explored breadth-first, states merged on (open, text). non-trivial = the event changes the text (non-empty range or insert) and the reference can apply it",
+			"histories open/inc/full/save/close explored breadth-first, states merged on (open, text); a change outside the document (5 forms: a line beyond the last one, alone or second in a batch) followed by didSave must leave exactly the saved text, and every edit after it is judged again. non-trivial = the event changes the text (non-empty range or insert) and the reference can apply it",
 		Assumptions: []string{
 			"reference buffer (internal/textref) implements LSP 3.17 position semantics: EOL = LF|CRLF|CR, character = UTF-16 code unit, character beyond line end clamps to the line length",
 			"positions inside a surrogate pair and lines beyond the last line are not judged (LSP leaves them to the client)",
@@ -562,6 +562,7 @@ func init() {
 				bd = 2
 			}
 			sp = append(sp, c02HandlerBatchSpace(append(append([]string{}, c02Docs(bd)...), "\ufeffa\n")))
+			sp = append(sp, c02ResyncSpace(append(append([]string{}, c02Docs(bd+1)...), "\ufeffa\n"), append(append([]string{}, c02Docs(1)...), "\ufeff", "a\r\nb")))
 			return sp
 		},
 	})
